@@ -257,6 +257,9 @@ func (s *LinearState) deleteDependencies(ctx *Context, id string) error {
 			Log(WARN, ctx, "LinearState.deleteDependencies", "loop", id)
 			continue
 		}
+		if rf, have := s.Facts[sr.Id]; have && !deleteWithNames(rf.M, id) {
+			continue
+		}
 		if _, err := s.rem(ctx, sr.Id, false); nil != err {
 			return err
 		}
